@@ -180,9 +180,9 @@ func (n *epochNotifier) RegisterNotifyHandler(h vmcommon.EpochSubscriberHandler)
 	n.handlers = append(n.handlers, h)
 }
 
-func (n *epochNotifier) confirm(epoch uint32) {
+func (n *epochNotifier) confirm(epoch uint32, timestamp uint64) {
 	for _, h := range n.handlers {
-		h.EpochConfirmed(epoch, 0)
+		h.EpochConfirmed(epoch, timestamp)
 	}
 }
 
